@@ -53,4 +53,19 @@ def sqlMax (vals : List (Option Int)) : Option Int :=
   | [] => none
   | x :: xs => some (xs.foldl max x)
 
+
+/-! ### `count(g.students.room)`: distinct values of a (composite) optional reference, SQLite form
+    `SELECT COUNT(*) FROM (SELECT DISTINCT a, b FROM … WHERE <outer> AND a IS NOT NULL AND b IS NOT NULL)` -/
+
+def dedupL {α} [DecidableEq α] : List α → List α
+  | [] => []
+  | x :: xs => if x ∈ dedupL xs then dedupL xs else x :: dedupL xs
+
+/-- the derived table with (`guard`) or without the IS NOT NULL conditions; a missing reference is one all-NULL row value -/
+def sqlCountDistinctRows {α} [DecidableEq α] (guard : Bool) (vals : List (Option α)) : Nat :=
+  (dedupL (if guard then vals.filter Option.isSome else vals)).length
+
+/-- Python: `len({s.room for s in g.students if s.room is not None})` -/
+def pyCountDistinct {α} [DecidableEq α] (vals : List (Option α)) : Nat := (dedupL (vals.filterMap id)).length
+
 end PonyVerif.Model.Q
